@@ -113,6 +113,7 @@ class Scenario:
     def __init__(self, workdir, tag, tps):
         self.host = H.Host(workdir, tag)
         self.model_tps = []
+        self.reg_model, self.reg_real, self.reg_ids = [], [], {}
         real = []
         for tp in tps:
             line = tp['line']
@@ -120,9 +121,14 @@ class Scenario:
                 line = self.host.marks[tp['file']][line]
             m = dict(tp, file=self.host.base[tp['file']], line=line if tp['kind'] == 'line' else 0,
                      name=tp.get('name', '') if tp['kind'] == 'method' else '')
-            self.model_tps.append(m)
-            real.append({'id': str(tp['id']), 'path': m['file'], 'line': line if tp['kind'] == 'line' else 0,
-                         'args': tp_args(m)})
+            rt = {'id': str(tp['id']), 'path': m['file'], 'line': line if tp['kind'] == 'line' else 0, 'args': tp_args(m)}
+            if tp.get('reg'):
+                # registered in code: in force alongside whatever the service sends, until unregistered (never, here)
+                self.reg_model.append(m)
+                self.reg_real.append(rt)
+            else:
+                self.model_tps.append(m)
+                real.append(rt)
         self.all_model_tps = list(self.model_tps)
         self.all_real = list(real)
         for m_ in self.host.mods.values():
@@ -134,7 +140,11 @@ class Scenario:
         self.frame_results = {}
         self.rig = R.Rig(plugins=[_BrokenSpanProc('brokenspan1'), self.spanproc, _Decorator(self),
                                   _BrokenSpanProc('brokenspan2')], push=self.push)
-        self.rig.install(real)
+        # everything goes through the real TracepointConfigService: the service's part as poll answers, the rest as
+        # registrations made in code
+        self.rig.install_via_service(real)
+        for m, rt in zip(self.reg_model, self.reg_real):
+            self.reg_ids[self.rig.register(rt)] = m['id']
         self.lock = threading.Lock()
         self.seq = 0
         self.records = []
@@ -155,13 +165,17 @@ class Scenario:
         keep = [i for i in range(len(self.all_model_tps)) if mask & (1 << i)]
         with self.lock:
             self.model_tps = [self.all_model_tps[i] for i in keep]
-            self.rig.install([self.all_real[i] for i in keep])
-            self.records.append({'ev': 'config', 'tps': [self._hdr_tp(t) for t in self.model_tps]})
+            self.rig.install_via_service([self.all_real[i] for i in keep])
+            self.records.append({'ev': 'config', 'tps': [self._hdr_tp(t) for t in self.model_tps + self.reg_model]})
 
     @staticmethod
     def _hdr_tp(t):
         return dict(id=t['id'], kind=t['kind'], file=t['file'], name=t['name'], line=t['line'], span=t['span'],
                     faulty=bool(t.get('faulty', False)))
+
+    def tpnum(self, raw):
+        """Model id of a tracepoint: the service's carry it, registrations are known by their registration id."""
+        return int(self.reg_ids.get(raw, raw))
 
     def current_seq(self):
         return getattr(self.tl, 'seq', 0)
@@ -174,20 +188,20 @@ class Scenario:
             return
         if kind == 'decorated':
             snapshot_id, context = obj
-            tp_id = int(context.location_action.tracepoint.id)
+            tp_id = self.tpnum(context.location_action.tracepoint.id)
             rec['fired'].append(tp_id)
             self.snap_open[snapshot_id] = (tp_id, rec['seq'], rec.get('frame'), threading.get_ident())
         elif kind == 'snapshot':
             opened = self.snap_open.get(obj.id_str)
             if opened is None:
-                rec['fired'].append(int(obj.tracepoint.id))      # pushed without having been decorated
+                rec['fired'].append(self.tpnum(obj.tracepoint.id))      # pushed without having been decorated
             elif opened[1] != rec['seq']:
                 rec['closed'].append([opened[0], opened[1]])      # a deferred snapshot completed by this event
                 self.deferred.append((obj, opened, rec['seq'], threading.get_ident()))
         elif kind == 'opened':
-            rec['fired'].append(int(obj.tp_id))
+            rec['fired'].append(self.tpnum(obj.tp_id))
         elif kind == 'closed':
-            rec['closed'].append([int(obj.tp_id), obj.open_seq])
+            rec['closed'].append([self.tpnum(obj.tp_id), obj.open_seq])
 
     def thr(self):
         ident = threading.get_ident()
@@ -367,5 +381,5 @@ class Scenario:
                             'fired': sorted(r['fired']),
                             'closed': sorted([c[0], renum.get(c[1], 0)] for c in r['closed']),
                             'blind': bool(r.get('blind'))})
-        hdr = {'tps': [self._hdr_tp(t) for t in self.all_model_tps]}
+        hdr = {'tps': [self._hdr_tp(t) for t in self.all_model_tps + self.reg_model]}
         return [hdr] + out
